@@ -31,16 +31,19 @@ for a in "$@"; do
 done
 log="$root/work/sim/stderr-$prop.log"
 cd "$here/progs"
-"$CARGO_TARGET_DIR/release/sim" "$@" 2>"$log"
+out="$root/work/sim/stdout-$prop-$$.txt"
+"$CARGO_TARGET_DIR/release/sim" "$@" >"$out" 2>"$log"
 rc=$?
 if [ $rc -eq 2 ] && grep -q "unexpected recompilation in final build" "$log"; then
   # The repository sources changed after hydro_lang's trybuild driver stamped its shared
   # dependency prebuild as fresh (e.g. a concurrent commit under the repository): reset the
-  # stamp so the prebuild runs again, and retry once.
+  # stamp so the prebuild runs again, and retry once (the first attempt's output is dropped).
   : > "$CARGO_TARGET_DIR/.prebuild.lock"
-  "$CARGO_TARGET_DIR/release/sim" "$@" 2>"$log"
+  "$CARGO_TARGET_DIR/release/sim" "$@" >"$out" 2>"$log"
   rc=$?
 fi
+cat "$out"
+rm -f "$out"
 if [ $rc -ne 0 ]; then
   echo "---- tail of $log ----" >&2
   tail -n 30 "$log" >&2
